@@ -490,6 +490,12 @@ pub fn structural_diff_opts(pristine: &Dump, damaged: &Dump, missing_ok: bool) -
                 None => break,
             }
         }
+        // a dump nested under a prefix ("after_rewrite/...") has its own "open" leaf
+        if let Some((prefix, _)) = path.split_once('/') {
+            if map.get(format!("{prefix}/open").as_str()).map(|l| l.is_err()).unwrap_or(false) {
+                return true;
+            }
+        }
         map.get("open").map(|l| l.is_err()).unwrap_or(false)
     };
     let mut diffs = Vec::new();
